@@ -51,6 +51,26 @@ CLAIMS = {
              "(exhaustive over reduced alphabets) but not proved: partial.",
         ref="DESIGN.md 4.10", technique="Rocq proof (tiling/reporting) + exhaustive differential lexing + extracted text predicate",
         note=NOTE + "Not proved: the token-text clause (tested). Modelled: lexer.py completely."),
+    "C05": dict(
+        text="(a) Theorem for every string: the tokenizer model terminates (its fuel, |src|+1 steps each consuming >= 1 raw character, is "
+             "never exhausted) and consumes the whole input; that no exception other than the documented iteration cap escapes is "
+             "shown by the exhaustive differential run, not proved.  (b) Theorems for ANY rule set whose matching primaries "
+             "consume >= 1 token: the registry loop terminates and ends Ok, with the controlled fatal error, or with an exception a "
+             "rule itself raised.  The loop model is replayed against the recorded events of every explored run.  Search: "
+             "conforming programs, token prefixes, 1-2 token edits under a wall-clock limit; exceptions classified by class + "
+             "innermost frame.  Partial: rule bodies are not modelled (crash-freedom of the 58 rules is searched, not proved).",
+        ref="DESIGN.md 4.5", technique="Rocq proof (lexer termination, generic loop progress) + differential lexing + crash search",
+        note=NOTE + "Modelled: lexer.py completely, Registry.run generically (rules = oracle). Not modelled: rule bodies, Context helpers."),
+    "C07": dict(
+        text="Theorems for ANY rule set whose matching primaries consume >= 1 token (the oracle of Model/Engine.v): a run that ends "
+             "normally splits the tokens into consecutive, non-empty statements covering the whole stream; without -d such a run "
+             "has set no token aside, i.e. text that no primary recognises is fatal wherever it sits (also at the end of the "
+             "file); the loop terminates.  The loop model is replayed against the recorded pop_tokens/run_rules events of every "
+             "explored run.  Alignment (statements start at column 1 and end at a line end), nesting depth back at file level "
+             "and the fatal outcome for fragments that the tool itself reports `uncaught` under -d are evaluated on real runs: "
+             "partial (they depend on the unmodelled primaries).",
+        ref="DESIGN.md 4.7", technique="Rocq proof (generic registry loop) + event-level correspondence + fragment-insertion search",
+        note=NOTE + "Modelled: Registry.run generically. Not modelled: the primaries that decide where statements end."),
 }
 
 NOT_YET = {}
